@@ -1,0 +1,54 @@
+//go:build verif
+
+// Contracts for package scorch: the iterators of the "unadorned" (ids only) optimisation (read by
+// /verif/gocv; comment-only effect with the verif tag off).
+//
+// C08 / C02: the 1-hit iterator delivers its one document exactly when it has not been consumed and
+// lies at or after the target, and is exhausted afterwards - a target equal to the document must
+// still deliver it.
+
+package scorch
+
+//@ func unadornedPostingsIterator1Hit.nextDocNumAtOrAfter
+//@   props C08 C02
+//@   mode int
+//@   requires i != nil
+//@   modifies i.docNum
+//@   ensures result1 == (old(i.docNum) != docNum1HitFinished && old(i.docNum) >= atOrAfter)
+//@   ensures implies(result1, result0 == old(i.docNum))
+//@   ensures i.docNum == docNum1HitFinished
+
+// ---- roaring's peekable iterator (assumed): ascending iteration over a fixed set ----
+// pkset: the members of the underlying bitmap (as seen by this iterator); pkfrom: everything below
+// has been consumed or skipped; pkhas / pkval: whether there is a next value, and which.
+// (HasNext / Next belong to the embedded interface IntIterable: the ghost state is declared there)
+//@ uf pkset(it roaring.IntIterable, x uint32) bool
+//@ ghostfield roaring.IntIterable.pkfrom uint64
+//@ ghostfield roaring.IntIterable.pkhas bool
+//@ ghostfield roaring.IntIterable.pkval uint32
+//@ spec pki(p roaring.IntPeekable) roaring.IntIterable = roaring.IntIterable(p)
+// the next value is the least member at or after pkfrom; none means there is no such member
+//@ spec pkState(it roaring.IntIterable) bool = implies(it.pkhas, pkset(it, it.pkval) && uint64(it.pkval) >= it.pkfrom && all(x, uint32, implies(pkset(it, x) && uint64(x) >= it.pkfrom, x >= it.pkval))) && \
+//@     implies(!it.pkhas, all(x, uint32, implies(pkset(it, x), uint64(x) < it.pkfrom)))
+//@ assume func roaring.IntIterable.HasNext(it)
+//@   requires it != nil
+//@   ensures result == it.pkhas && pkState(it)
+//@ assume func roaring.IntIterable.Next(it)
+//@   requires it != nil && it.pkhas
+//@   modifies it.pkfrom, it.pkhas, it.pkval
+//@   ensures result == old(it.pkval) && it.pkfrom == uint64(old(it.pkval)) + 1 && pkState(it)
+//@ assume func roaring.IntPeekable.AdvanceIfNeeded(it, minval)
+//@   requires it != nil
+//@   modifies pki(it).pkfrom, pki(it).pkhas, pki(it).pkval
+//@   ensures pki(it).pkfrom == max(old(pki(it).pkfrom), uint64(minval)) && pkState(pki(it))
+
+// the bitmap iterator delivers the least member at or after the target that has not been consumed
+// (targets are 32-bit doc numbers: the reader never passes a larger one, see IndexSnapshotTermFieldReader.Advance)
+//@ func unadornedPostingsIteratorBitmap.nextDocNumAtOrAfter
+//@   props C08 C02
+//@   mode int
+//@   requires i != nil && i.actual != nil && atOrAfter < 4294967296
+//@   modifies pki(i.actual).pkfrom, pki(i.actual).pkhas, pki(i.actual).pkval
+//@   ensures implies(result1, result0 < 4294967296 && pkset(pki(i.actual), uint32(result0)) && result0 >= atOrAfter && result0 >= old(pki(i.actual).pkfrom) && \
+//@             all(x, uint32, implies(pkset(pki(i.actual), x) && uint64(x) >= atOrAfter && uint64(x) >= old(pki(i.actual).pkfrom), uint64(x) >= result0)) && pki(i.actual).pkfrom == result0 + 1)
+//@   ensures implies(!result1, all(x, uint32, implies(pkset(pki(i.actual), x), uint64(x) < atOrAfter || uint64(x) < old(pki(i.actual).pkfrom))))
